@@ -354,7 +354,7 @@ pub fn run(ctx: &mut Ctx) {
                 .into(),
         ),
     );
-    let n = ctx.tier_pick(1200u64, 20000);
+    let n = ctx.tier_pick(1200u64, 80_000);
     let mut rng = ctx.rng("cases");
     for i in 0..n {
         let num_bits = match rng.below(6) {
